@@ -29,6 +29,7 @@ import (
 
 	"github.com/codenotary/immudb/cmd/version"
 	"github.com/codenotary/immudb/embedded/logger"
+	"github.com/codenotary/immudb/embedded/simhook"
 	"github.com/codenotary/immudb/pkg/api/schema"
 	"github.com/codenotary/immudb/pkg/client"
 	"github.com/codenotary/immudb/pkg/database"
@@ -128,6 +129,9 @@ func NewTxReplicator(uuid xid.ID, db database.DB, opts *Options, logger logger.L
 }
 
 func (txr *TxReplicator) handleError(err error) (terminate bool) {
+	if simhook.Enabled {
+		simhook.BeforeLock("txr.mutex", txr.simTryMutex)
+	}
 	txr.mutex.Lock()
 	defer txr.mutex.Unlock()
 
@@ -157,6 +161,9 @@ func (txr *TxReplicator) handleError(err error) (terminate bool) {
 		return true
 	case <-timer.C:
 	}
+	if simhook.Enabled {
+		simhook.Yield("txr-after-delay")
+	}
 
 	retryableError := !strings.Contains(err.Error(), "no session found")
 
@@ -168,6 +175,9 @@ func (txr *TxReplicator) handleError(err error) (terminate bool) {
 }
 
 func (txr *TxReplicator) Start() error {
+	if simhook.Enabled {
+		simhook.BeforeLock("txr.mutex", txr.simTryMutex)
+	}
 	txr.mutex.Lock()
 	defer txr.mutex.Unlock()
 
@@ -191,10 +201,17 @@ func (txr *TxReplicator) Start() error {
 
 	for i := 0; i < txr.replicationConcurrency; i++ {
 		go func() {
+			if simhook.Enabled {
+				simhook.GoStart(fmt.Sprintf("txr-worker:%s/%d", txr.db.GetName(), i))
+				defer simhook.GoEnd()
+			}
 			txr.metrics.replicators.Inc()
 			defer txr.metrics.replicators.Dec()
 
 			for etx := range txr.prefetchTxBuffer {
+				if simhook.Enabled {
+					simhook.Yield("txr-worker-wake")
+				}
 				txr.metrics.txWaitQueueHistogram.Observe(time.Since(etx.addedAt).Seconds())
 
 				if !txr.replicateSingleTx(etx.data) {
@@ -210,6 +227,10 @@ func (txr *TxReplicator) Start() error {
 }
 
 func (txr *TxReplicator) replicationLoop() {
+	if simhook.Enabled {
+		simhook.GoStart("txr-loop:" + txr.db.GetName())
+		defer simhook.GoEnd()
+	}
 	txr.logger.Infof("Replication for '%s' started fetching transaction from '%s'...", txr.db.GetName(), txr._primaryDB)
 
 	var err error
@@ -274,6 +295,9 @@ func (txr *TxReplicator) replicationFailureDelay(consecutiveFailures int) bool {
 		timer.Stop()
 		return false
 	case <-timer.C:
+		if simhook.Enabled {
+			simhook.Yield("txr-after-delay")
+		}
 		return true
 	}
 }
@@ -344,6 +368,9 @@ func (txr *TxReplicator) disconnect() {
 }
 
 func (txr *TxReplicator) fetchNextTx() error {
+	if simhook.Enabled {
+		simhook.BeforeLock("txr.mutex", txr.simTryMutex)
+	}
 	txr.mutex.Lock()
 	defer txr.mutex.Unlock()
 
@@ -504,6 +531,9 @@ func (txr *TxReplicator) fetchNextTx() error {
 			data:    etx,
 			addedAt: time.Now(),
 		}
+		if simhook.Enabled {
+			simhook.Yield("txr-prefetch-sent")
+		}
 		txr.lastTx++
 	}
 	return nil
@@ -518,6 +548,9 @@ func (txr *TxReplicator) stopWithErr(err error) error {
 		txr.cancelFunc()
 	}
 
+	if simhook.Enabled {
+		simhook.BeforeLock("txr.mutex", txr.simTryMutex)
+	}
 	txr.mutex.Lock()
 	defer txr.mutex.Unlock()
 
@@ -540,6 +573,9 @@ func (txr *TxReplicator) stopWithErr(err error) error {
 }
 
 func (txr *TxReplicator) Error() error {
+	if simhook.Enabled {
+		simhook.BeforeLock("txr.mutex", txr.simTryMutex)
+	}
 	txr.mutex.Lock()
 	defer txr.mutex.Unlock()
 
